@@ -1,17 +1,4 @@
 // ---------------------------------------------------------------- U-mini: what Minimizer::minimize must preserve (C03)
-/// the automaton as find_from reads it (U-dfa: step1 / reach / acc)
-pub open spec fn d_step(d: CompiledDfa, cls: ClsF, s: int, c: char, t: int) -> bool {
-    0 <= s < d.states@.len() && 0 <= t <= u32::MAX
-        && exists|cc: CharClassID| #[trigger] d.states@[s].transitions@.contains((cc, StateSetID(t as u32))) && cls(cc, c)
-}
-pub open spec fn d_reach(d: CompiledDfa, cls: ClsF, w: Seq<char>, t: int) -> bool
-    decreases w.len()
-{
-    if w.len() == 0 { t == 0 } else { exists|s: int| d_reach(d, cls, w.drop_last(), s) && #[trigger] d_step(d, cls, s, w.last(), t) }
-}
-pub open spec fn d_acc(d: CompiledDfa, cls: ClsF, w: Seq<char>, tid: TerminalID) -> bool {
-    exists|t: int| 0 <= t < d.states@.len() && #[trigger] d_reach(d, cls, w, t) && d.end_states@[t] == (true, tid)
-}
 /// shape minimize relies on: as many end-state entries as states, at least one state, targets are states
 pub open spec fn d_wf(d: CompiledDfa) -> bool {
     &&& d.states@.len() >= 1 && d.states@.len() == d.end_states@.len() && d.states@.len() < u32::MAX
@@ -123,4 +110,27 @@ pub proof fn theorem_quotient_language(d: CompiledDfa, p: PartV, q: CompiledDfa,
         assert(q_end_ok(d, p, q, g));
         assert(q.end_states@[g] == (true, tid));
     }
+}
+
+// ---- the contract of Minimizer::minimize, as its callers see it
+pub open spec fn set_nonempty(s: Set<StateID>) -> bool { exists|x: StateID| #[trigger] s.contains(x) }
+pub open spec fn all_nonempty(p: PartV) -> bool { forall|g: int| 0 <= g < p.len() ==> set_nonempty(#[trigger] p[g]) }
+/// what minimize returns: the quotient by some stable, acceptance-homogeneous partition whose first group holds the start state
+pub open spec fn minimized(d: CompiledDfa, r: CompiledDfa) -> bool {
+    exists|p: PartV| #[trigger] part_ok(p, d.states@.len() as int) && stable(d, p) && acc_homog(d, p) && quotient_ok(d, p, r) && all_nonempty(p)
+}
+
+/// THEOREM (C03): whatever Minimizer::minimize returns accepts, for every class predicate, every word and every token type, exactly what the automaton
+/// it was given accepts (both run from state 0, the start state)
+pub proof fn theorem_minimize_language(d: CompiledDfa, r: CompiledDfa, cls: ClsF, w: Seq<char>, tid: TerminalID)
+    requires d_wf(d), minimized(d, r)
+    ensures d_acc(r, cls, w, tid) <==> d_acc(d, cls, w, tid)
+{
+    let p = choose|p: PartV| #[trigger] part_ok(p, d.states@.len() as int) && stable(d, p) && acc_homog(d, p) && quotient_ok(d, p, r) && all_nonempty(p);
+    theorem_quotient_language(d, p, r, cls, w, tid);
+}
+
+/// what a caller of Minimizer::minimize learns about its result r for the automaton d it passed
+pub open spec fn min_of(d: CompiledDfa, r: CompiledDfa) -> bool {
+    d_wf(d) && minimized(d, r) && r.states@.len() <= d.states@.len() && r.terminal_ids == d.terminal_ids && r.lookaheads == d.lookaheads && r.patterns == d.patterns
 }
